@@ -296,7 +296,7 @@ def check(pid, tier, seed):
             k = int(prob.split()[1]) if prob.startswith("step ") and prob.split()[1].isdigit() else min(nobs, len(ops) - 1)
             opn = ops[min(k, len(ops) - 1)].split()[0]
             verdict.violation("array[%s] %s: %s" % (ty, opn, " ".join(prob.split(":")[-1].split()[:6])), prob,
-                              {"component": "array", "type": ty, "history": ops[:k + 1]})
+                              {"component": "array", "xid": xid, "type": ty, "history": ops[:k + 1]})
         if len(samples) < 2 and len(path) > 3:
             samples.append({"source": "tlc-path", "type": ty, "history": [" ".join(step_line(g, ei).split()[1:]) for ei in path][:20]})
     log("[%s] graph %d states / %d edges, %d executions" % (pid, len(g.states), len(g.edges), len(meta)))
@@ -328,7 +328,7 @@ def check(pid, tier, seed):
                 prob = "LeakSanitizer: memory allocated by the array was never freed"
         if prob:
             verdict.violation("array[%s] random: %s" % (c["ty"], " ".join(prob.split(":")[-1].split()[:6])), prob,
-                              {"component": "array", "type": c["ty"], "history": [s[2:] for s in c["steps"]]})
+                              {"component": "array", "xid": x, "type": c["ty"], "history": [s[2:] for s in c["steps"]]})
     acc, rej, tst = tracecheck.validate(SPEC, "ArrayTrace.tla", "ArrayTrace.cfg", execs)
     log("[%s] trace validation: %d histories, %d rejected, TLC %.1fs" % (pid, len(execs), len(rej), tst["tlc_wall_s"]))
     for x, info in rej.items():
@@ -337,7 +337,7 @@ def check(pid, tier, seed):
             continue
         nx = info["next"] or {}
         verdict.violation("array[%s] random history rejected at %s" % (ycfg[x]["ty"], nx.get("e")), {"matched": info["matched"], "next": nx},
-                          {"component": "array", "type": ycfg[x]["ty"], "history": [s[2:] for s in ycfg[x]["steps"][:info["matched"] + 1]]})
+                          {"component": "array", "xid": x, "type": ycfg[x]["ty"], "history": [s[2:] for s in ycfg[x]["steps"][:info["matched"] + 1]]})
     samples.append({"source": "random", "type": ycfg["y0"]["ty"], "history": [s[2:] for s in ycfg["y0"]["steps"][:20]]})
     nexec = len(meta) + len(ycfg)
     cov = {
@@ -353,3 +353,13 @@ def check(pid, tier, seed):
     rc = verdict.finish()
     common.write_evidence(pid, tier, seed, "model_checking", cov, ASSUMPTIONS, time.time() - t0, len(verdict.violations))
     return rc
+
+
+def all_harnesses():
+    exe = harness()
+    return {exe.name: exe}
+
+
+def replay(pid, path):
+    import sys
+    return common.replay(pid, path, sys.modules[__name__])
